@@ -9,8 +9,8 @@ EXTENDS Integers, Sequences, FiniteSets, TLC
 
 Byte == 0..255
 
-Max(a, b) == IF a >= b THEN a ELSE b
-Min(a, b) == IF a <= b THEN a ELSE b
+Max2(a, b) == IF a >= b THEN a ELSE b
+Min2(a, b) == IF a <= b THEN a ELSE b
 
 RECURSIVE Pow(_, _)
 Pow(b, e) == IF e = 0 THEN 1 ELSE b * Pow(b, e - 1)
@@ -23,7 +23,7 @@ Concat(ss) == IF ss = <<>> THEN <<>> ELSE Head(ss) \o Concat(Tail(ss))
 
 Sub(s, from, to) == IF to < from THEN <<>> ELSE SubSeq(s, from, to)   \* 1-based inclusive
 Drop(s, n) == Sub(s, n + 1, Len(s))
-Take(s, n) == Sub(s, 1, Min(n, Len(s)))
+Take(s, n) == Sub(s, 1, Min2(n, Len(s)))
 
 (***************************************************************************)
 (* Small (int-sized) conversions.                                          *)
